@@ -109,19 +109,13 @@ theorem map_heap_agree_late_answer :
 
 example : Nsq.Proofs.InFlight.NoDupPush (InFlight.initSt []) zombieSchedule := by
   simp [Nsq.Proofs.InFlight.NoDupPush, Nsq.Proofs.InFlight.pushes, zombieSchedule, InFlight.step, InFlight.initSt,
-    InFlight.okH, InFlight.push, InFlight.up, InFlight.dropCont]
+    InFlight.okH, InFlight.push, InFlight.up, InFlight.dropCont, InFlight.contObjs]
 
 
 /-! ### Empty racing an answer in progress (audit B17) -/
 
-/-- the object a parked continuation holds -/
-def contObj : InFlight.Cont → List Nat
-  | .finAfterPop o | .reqAfterPop o _ | .reqAfterRemove o _ | .touchAfterPop o | .touchAfterRemove o
-  | .touchAfterMapPush o | .inflightAfterMapPush o | .scanAfterPQPop o | .deferAfterMapPush o | .dscanAfterPQPop o => [o]
-  | .emptyAfterInflightReset | .emptyAfterInitPQ => []
-
 /-- everything the channel is responsible for: queued, in flight, deferred, or in the hands of an operation in progress -/
-def heldBy (s : InFlight.St) : List Nat := s.map ++ s.queued ++ s.dmap ++ (s.conts.map contObj).flatten
+def heldBy (s : InFlight.St) : List Nat := s.map ++ s.queued ++ s.dmap ++ InFlight.contObjs s.conts
 
 def noPut (l : List InFlight.Step) : Bool := l.all (fun a => match a with | .put _ => false | _ => true)
 
@@ -173,7 +167,9 @@ theorem empty_sections_clear (s s1 s2 s3 : InFlight.St)
   simp only [InFlight.step] at h1 h2 h3
   split at h1
   · cases h1
-  · cases h1
+  · split at h1
+    · cases h1
+    cases h1
     split at h2
     · cases h2
       split at h3
